@@ -319,6 +319,8 @@ func (ex *Exec) runPath(h *Harness, prefix []int32) (reason string) {
 	ex.pending = nil
 	ex.snaps = nil
 	ex.syncMaps = nil
+	ex.uuids = nil
+	ex.nuuid = 0
 	ex.onceDone = nil
 	defer func() {
 		r := recover()
